@@ -1,5 +1,15 @@
 """Property theorems (names inside namespace FR.Props.<id>) that every check requires to be in the
 built environment with no axioms beyond propext / Classical.choice / Quot.sound."""
 OBLIGATIONS = {
+ 'C03': ['bytesLt_strict_total', 'dbl_strict_weak_order', 'pairLt_strict_total', 'inv_iff', 'empty_inv', 'add_inv', 'discard_inv',
+         'get_add', 'get_add_self', 'add_changed', 'get_discard', 'len_add', 'len_discard', 'members_sorted', 'members_nodup',
+         'byscore_length', 'get_iff_mem_byscore', 'rank_is_index', 'rank_of_index', 'rank_none_iff', 'rank_eq_bisectLeft',
+         'zrevrank_mirror', 'revrank_is_index', 'irange_eq_filter', 'irange_eq_filter_gen', 'zcount_eq_length', 'zrangebyscore_spec',
+         'zcount_matches_zrangebyscore', 'cisInv_iff', 'conv_float_never_nan', 'zset_inv_preserved', 'zadd_never_nan',
+         'zincrby_never_nan'],
+ 'C06': ['step_notifies_partial', 'unrestricted_false'],
+ 'C07': ['run_purge_sim', 'expired_eq_deleted'],
+ 'C08': ['error_changes_nothing', 'failed_iff_error_path'],
+ 'C09': ['no_empty_collections', 'reads_create_nothing'],
  'C16': ['glob_correct', 'empty_subject', 'empty_subject_model', 'star_matches_all', 'literal_pattern'],
 }
